@@ -246,6 +246,8 @@ end Entries
     `nameCls` is the class of the mnemonic: a keyword, a particle letter (`f`, `e`, `t`, `c` …) or other text. -/
 structure Classifier where
   star : Bool
+  /-- the class of the `*`: a literal in a cell card; the data-card lexer has a class for special characters -/
+  starCls : String := "*"
   name : String
   nameCls : String
   number : Option String
@@ -253,7 +255,8 @@ structure Classifier where
   deriving Repr
 
 namespace Classifier
-def WF (c : Classifier) : Bool := ["TEXT", "KEYWORD", "PARTICLE"].contains c.nameCls
+def WF (c : Classifier) : Bool :=
+  ["TEXT", "KEYWORD", "PARTICLE"].contains c.nameCls && ["*", "PARTICLE_SPECIAL"].contains c.starCls
 def particleClasses : List String → List String
   | [] => []
   | _ :: rest => [":", "PARTICLE"] ++ rest.flatMap (fun _ => [",", "PARTICLE"])
@@ -261,7 +264,7 @@ def numberClasses : Option String → List String
   | some _ => ["NUMBER"]
   | none => []
 def classes (c : Classifier) : List String :=
-  (if c.star then ["*"] else []) ++ [c.nameCls] ++ numberClasses c.number ++ particleClasses c.particles
+  (if c.star then [c.starCls] else []) ++ [c.nameCls] ++ numberClasses c.number ++ particleClasses c.particles
 def render (c : Classifier) : List String :=
   [(if c.star then "*" else "") ++ c.name ++ (c.number.getD "") ++
     (match c.particles with | [] => "" | p :: ps => ":" ++ p ++ String.join (ps.map ("," ++ ·)))]
